@@ -63,6 +63,12 @@ def cases(tier, seed):
                             if shape == "2d" and (L > 2 or ds == 1):
                                 continue
                             yield dict(kind="chain", alpha=alpha, steps=list(steps), ds=ds, w=w, shape=shape)
+                # step names: all equal (legal: the steps are a list), and in reverse alphabetical order (seed C06-7: iteration over a
+                # dict of the names)
+                if L >= 2:
+                    for naming in ("dup", "rev"):
+                        for w in ((True,) if L > 2 else (False, True)):
+                            yield dict(kind="chain", alpha=alpha, steps=list(steps), ds=0, w=w, shape="1d", naming=naming)
     for alpha, names in (("scalar", sorted(SCALAR)), ("vector", sorted(VECTOR))):
         for L in (1, 2):
             for steps in itertools.product(names, repeat=L):
@@ -172,7 +178,9 @@ def run(case, rec):
             return (rs(e), rs(n)), data, wts
 
         def chain():
-            return vd.Chain([("s%d" % i, _mk(alpha, k, weighted)) for i, k in enumerate(steps)])
+            naming = case.get("naming", "unique")
+            name = {"unique": lambda i: "s%d" % i, "dup": lambda i: "step", "rev": lambda i: "s%d" % (9 - i)}[naming]
+            return vd.Chain([(name(i), _mk(alpha, k, weighted)) for i, k in enumerate(steps)])
 
         scale = 30.0
         if kind == "chain":
